@@ -7,7 +7,7 @@ tier = "quick"
 args = sys.argv[1:]
 if args[:1] == ["--tier"]:
     tier = args[1]; args = args[2:]
-EXTRA = {"C07-m1": ["C04"], "C03-m2": ["C05"], "C09-m2": ["C11"], "C11-m4": ["C07"], "C10-m4": ["C18"], "C12-m4": ["C05"], "C04-m4": ["C03"], "C03-m6": ["C12"], "C06-m6": ["C05", "C12"], "C12-m5": ["C14"], "C09-m6": ["C10"], "C20-m5": ["C17"], "C17-m5": ["C20"]}
+EXTRA = {"C07-m1": ["C04"], "C03-m2": ["C05"], "C09-m2": ["C11"], "C11-m4": ["C07"], "C10-m4": ["C18"], "C12-m4": ["C05"], "C04-m4": ["C03"], "C03-m6": ["C12"], "C06-m6": ["C05", "C12"], "C12-m5": ["C14"], "C16-m5": ["C14"], "C09-m6": ["C10"], "C20-m5": ["C17"], "C17-m5": ["C20"]}
 def sh(cmd, cwd=None):
     p = subprocess.run(cmd, shell=True, cwd=cwd, capture_output=True, text=True)
     return p.returncode, p.stdout + p.stderr
